@@ -1,5 +1,5 @@
 PROP = {
-    "regen_files": ["GenGuards.v", "GenDeleg.v"],
+    "regen_files": ["GenGuards.v", "GenDeleg.v", "GenSigs.v"],
     "num": 2,
     "runs": [{"tag": "c02", "bin": "c02"},
              # slices of zero-sized elements whose length agrees with N only modulo 2^32 (direct oracle:
